@@ -28,10 +28,11 @@ def verify_case(repo, qualname, case_index, timeout_ms=10000, want_models=True):
         r = s.check()
         out['results'].append(solve.Result('%s/%s/vacuity/precondition-satisfiable'
                                            % (qualname.split('.', 1)[-1], case.name), 'vacuity',
-                                           'unsat' if r == z3.sat else ('sat' if r == z3.unsat else 'unknown'),
+                                           'sat' if r == z3.unsat else 'unsat',
                                            'z3', 0.0, fn=qualname, case=case.name,
                                            detail='requires is satisfiable' if r == z3.sat else
-                                           'requires is contradictory or undecided').to_dict())
+                                           ('requires is contradictory' if r == z3.unsat else
+                                            'requires not provably contradictory (solver: unknown)')).to_dict())
         posts = [o for o in obls if o.kind == 'post']
         if posts:
             # must-fail: `ensures False` must not be provable, i.e. the assumptions of at least one
